@@ -28,6 +28,11 @@ type loaderCfg struct {
 
 // Script text for a model script: call i sits alone on line i at column 2i-1 so that every call
 // site has a distinguishable (line, column).
+// curShapeOff: 0 = the use calls are the script's top-level statements; 2 = they sit in a loop body two lines further down.
+// The replay alternates between the two shapes; expected call-site lines shift by the same amount.
+var curShapeOff int
+var shapeCounter int
+
 func scriptText(status string, calls []string) string {
 	switch status {
 	case "parse":
@@ -38,12 +43,18 @@ func scriptText(status string, calls []string) string {
 		return "len(len(nosuchfn()))"
 	}
 	var b strings.Builder
+	if curShapeOff == 2 && len(calls) > 0 {
+		// the use calls sit in a loop body, after a statement that contains a (never taken) continue: call i is on line i+2
+		b.WriteString("for lv in [1] {\nif lv == 2 { continue }\n")
+	}
 	for i, t := range calls {
 		b.WriteString(strings.Repeat(" ", 2*i))
 		fmt.Fprintf(&b, "use(%q)\n", t)
 	}
 	if len(calls) == 0 {
 		b.WriteString("add_key(k, 1)\n")
+	} else if curShapeOff == 2 {
+		b.WriteString("}\n")
 	}
 	return b.String()
 }
@@ -166,7 +177,7 @@ func chainProblem(e error, want specErrRec) string {
 			return "empty chain"
 		}
 		s0, i0 := siteOf(sites[0])
-		if (ch[0].File != want.Root && ch[0].File != s0) || ch[0].Ln != i0 || ch[0].Col != 2*i0-1 {
+		if (ch[0].File != want.Root && ch[0].File != s0) || ch[0].Ln != i0+curShapeOff || ch[0].Col != 2*i0-1 {
 			return fmt.Sprintf("cycle root cause must be the closing call site %s:%d:%d, got %v", s0, i0, 2*i0-1, ch[0])
 		}
 		tail = ch[1:]
@@ -176,8 +187,8 @@ func chainProblem(e error, want specErrRec) string {
 	}
 	for k, s := range sites {
 		n, i := siteOf(s)
-		if tail[k].File != n || tail[k].Ln != i || tail[k].Col != 2*i-1 {
-			return fmt.Sprintf("call site %d must be %s:%d:%d, chain=%v", k, n, i, 2*i-1, ch)
+		if tail[k].File != n || tail[k].Ln != i+curShapeOff || tail[k].Col != 2*i-1 {
+			return fmt.Sprintf("call site %d must be %s:%d:%d, chain=%v", k, n, i+curShapeOff, 2*i-1, ch)
 		}
 	}
 	return ""
@@ -251,6 +262,9 @@ func replayLoader(args []string) (any, error) {
 			return err
 		}
 		ordersWanted++
+		shapeCounter++
+		curShapeOff = 2 * (shapeCounter % 2)
+		defer func() { curShapeOff = 0 }()
 		// insertion order: wanted visit order first, then the broken scripts
 		ins := append([]string{}, v.Order...)
 		for _, n := range keysOf(v.Status) {
